@@ -78,7 +78,7 @@ class RotationRng(Machine):
                        "negative_angle", "beyond_one_turn", "radians", "tcoords", "returned_transform_mutated",
                        "about_centre_scale", "about_centre_rotate", "about_centre_shear", "about_centre_transform",
                        "scale_factory", "scale_factory_zero_refused", "passed_array_mutated",
-                       "radians_beyond_360", "quat_from_existing_rotation", "quat_from_integer_matrix_rotation", "about_centre_with_a_chain", "about_centre_chain_used_again", "about_centre_with_a_projective_map", "constructor_result_used_in_about_a_point_idiom", "about_centre_per_axis_scale", "scale_factory_opposite_signs", "centre_with_zero_coordinate",
+                       "radians_beyond_360", "quat_from_existing_rotation", "quat_from_integer_matrix_rotation", "about_centre_with_a_chain", "about_centre_chain_used_again", "about_centre_with_a_projective_map", "quat_half_turn", "constructor_result_used_in_about_a_point_idiom", "about_centre_per_axis_scale", "scale_factory_opposite_signs", "centre_with_zero_coordinate",
                        "scale_factory_scalar_zero")
 
     @classmethod
@@ -235,6 +235,22 @@ class RotationRng(Machine):
                     ctx.probe("quat_from_existing_rotation")
                 else:
                     r = Rotation.init_3d_from_quaternion(q.copy())
+                    if op["frac"] % 8 == 0:
+                        # the unit quaternions with scalar part exactly 0 are the half-turns
+                        qh = np.concatenate([[0.0], axis])
+                        try:
+                            rh = Rotation.init_3d_from_quaternion(qh.copy())
+                            Rh = np.asarray(rh.rotation_matrix, dtype=float)
+                            qb = np.asarray(rh.as_vector(), dtype=float)
+                        except Exception as ex:
+                            ctx.fail("quaternion_roundtrip", "half_turn_quaternion_raised", repr(ex))
+                            return
+                        want = 2.0 * np.outer(axis, axis) - np.eye(3)
+                        ctx.require(float(np.abs(Rh - want).max()) < 1e-9, "quaternion_roundtrip", "half_turn_quaternion_gives_another_rotation",
+                                    lambda: "q=%r gives %r, a half-turn about that axis is %r" % (qh.tolist(), Rh.tolist(), want.tolist()))
+                        ctx.require(min(float(np.abs(qb - qh).max()), float(np.abs(qb + qh).max())) < 1e-9, "quaternion_roundtrip", "q_to_rotation_to_q",
+                                    lambda: "q=%r back=%r" % (qh.tolist(), qb.tolist()))
+                        ctx.probe("quat_half_turn")
                 ctx.probe("quat")
                 q2 = r.as_vector()
                 e = float(np.abs(q2 - q).max())
